@@ -27,24 +27,45 @@ struct RankOut {
     template <class Ar> void serialize(Ar &ar, const unsigned) { ar & threw & emitted & order_hash; }
 };
 
-// perturb this rank's allocator state so that equal-sized nodes allocated afterwards come back in a rank-specific order
-static void perturb_heap(const std::vector<unsigned> &layout, int rank) {
-    if (layout.empty()) return;
+// Per-rank heap layout: while a graph is being built, allocations of the size of an edge-list node are served from a static
+// arena in a rank-specific order (a permutation derived from the case's layout tape and the rank), so that the address order of
+// the edge properties - the order of std::set<edge_descriptor> - is an arbitrary, rank-specific permutation, while vertex numbering
+// and edge insertion order stay identical on all ranks.
+static const std::size_t NODE_BYTES = 40;       // std::list node of list_edge<unsigned long, property<edge_weight_t, W>>
+static const std::size_t SLOT_BYTES = 48;
+static const std::size_t ARENA_SLOTS = 8192;
+alignas(16) static char g_arena[ARENA_SLOTS * SLOT_BYTES];
+static std::vector<unsigned> *g_perm = nullptr;  // slot order for the current build
+static std::size_t g_perm_next = 0;
+static bool g_arena_on = false;
+
+static void arena_begin(const std::vector<unsigned> &layout, int rank, std::size_t need) {
+    static std::vector<unsigned> perm;
     uint64_t s = 88172645463325252ULL ^ ((uint64_t) (rank + 1) * 0x9E3779B97F4A7C15ULL);
     for (unsigned x : layout) s = (s ^ x) * 6364136223846793005ULL + 1442695040888963407ULL;
     auto next = [&]() { s = s * 6364136223846793005ULL + 1442695040888963407ULL; return (unsigned) (s >> 33); };
-    const int N = 64;
-    void *blk[N];
-    for (int i = 0; i < N; i++) blk[i] = ::operator new(40);
-    for (int i = N - 1; i > 0; i--) std::swap(blk[i], blk[next() % (i + 1)]);
-    int keep = next() % 24;
-    for (int i = keep; i < N; i++) { ::operator delete(blk[i]); blk[i] = nullptr; }
-    // the kept blocks stay allocated until the end of the case (freed by the caller through this static list)
-    static std::vector<void *> held;
-    for (void *p : held) ::operator delete(p);
-    held.clear();
-    for (int i = 0; i < keep; i++) held.push_back(blk[i]);
+    std::size_t k = std::min(ARENA_SLOTS, need + 8);
+    perm.resize(k);
+    for (std::size_t i = 0; i < k; i++) perm[i] = (unsigned) i;
+    bool identity = layout.empty() || (layout.size() == 1 && layout[0] == 0 && rank == 0);
+    if (!identity) for (std::size_t i = k - 1; i > 0; i--) std::swap(perm[i], perm[next() % (i + 1)]);
+    g_perm = &perm;
+    g_perm_next = 0;
+    g_arena_on = true;
 }
+static void arena_end() { g_arena_on = false; }
+
+void *operator new(std::size_t n) {
+    if (g_arena_on && n == NODE_BYTES && g_perm && g_perm_next < g_perm->size()) return g_arena + (std::size_t) (*g_perm)[g_perm_next++] * SLOT_BYTES;
+    void *p = std::malloc(n ? n : 1);
+    if (!p) throw std::bad_alloc();
+    return p;
+}
+void operator delete(void *p) noexcept {
+    if ((char *) p >= g_arena && (char *) p < g_arena + sizeof(g_arena)) return;   // arena slots are recycled per build, never freed
+    std::free(p);
+}
+void operator delete(void *p, std::size_t) noexcept { operator delete(p); }
 
 template <class W>
 static Verdict collective_t(const Case &c, mpi::communicator &world) {
@@ -58,8 +79,9 @@ static Verdict collective_t(const Case &c, mpi::communicator &world) {
     std::string foreign_why, what;
     double returned = 0;
     if (in) {
-        perturb_heap(c.layout, world.rank());
+        arena_begin(c.layout, world.rank(), (std::size_t) s.m() * 2 + 16);
         BG<W> bg(s);
+        arena_end();
         {
             std::vector<std::pair<const void *, int>> ord;
             for (int i = 0; i < s.m(); i++) ord.push_back({bg.edges[i].get_property(), i});
@@ -134,7 +156,7 @@ static Verdict collective(const Case &c, mpi::communicator &world) {
 
 static Case gen_c04() {
     Case c;
-    c.entry = MPI5[pick(0, 4)];
+    c.entry = coin(35) ? MPI5[0] : MPI5[pick(0, 4)];   // the signed variant has the most MPI-specific search logic
     c.wtype = coin(25) ? "int" : "double";
     GenOpts o;
     o.maxN = g_maxN;
